@@ -238,9 +238,19 @@ Inductive op :=
 | ORepartition (m : Z)
 | OPartitionBy (n : Z) (f : val -> Z)
 | OZipUid
-| OTagIndex.       (* mapPartitionsWithIndex(lambda i, it: ((i, x) for x in it)) *)
+| OTagIndex        (* mapPartitionsWithIndex(lambda i, it: ((i, x) for x in it)) *)
+| OMap (g : val -> val)              (* map / keyBy / mapValues: element-wise, lazy *)
+| OFlatMap (g : val -> list val)     (* flatMap *)
+| OPersist                           (* persist(): same partitions, same contents *)
+| OZipIndex                          (* zipWithIndex() *)
+| OFault (fi : Z).  (* a stage whose function raises once in the task of partition fi; the task is
+                       retried (see run_task below) and the retried attempt yields the same elements *)
 
 Definition tag_index (i : Z) (p : list val) : list val := map (fun x => VTup [VInt i; x]) p.
+
+(* zipWithIndex: parallelize((d, i) for i, d in enumerate(self.toLocalIterator())) -- one partition *)
+Definition zip_with_index (r : rdd) : rdd :=
+  parallelize (map (fun ix => VTup [snd ix; VInt (fst ix)]) (enum_from 0 (local_iter r))) None.
 
 Definition run_source (s : source) : rdd :=
   match s with
@@ -255,6 +265,11 @@ Definition run_op (o : op) (r : rdd) : res rdd :=
   | OPartitionBy n f => partitionBy f r n
   | OZipUid => Ok (zip_with_unique_id r)
   | OTagIndex => Ok (map_partitions_with_index tag_index r)
+  | OMap g => Ok (map_partitions_with_index (fun _ p => map g p) r)
+  | OFlatMap g => Ok (map_partitions_with_index (fun _ p => flat_map g p) r)
+  | OPersist => Ok r
+  | OZipIndex => Ok (zip_with_index r)
+  | OFault _ => Ok r
   end.
 
 Fixpoint run_ops (ops : list op) (r : rdd) : res rdd :=
@@ -264,3 +279,44 @@ Fixpoint run_ops (ops : list op) (r : rdd) : res rdd :=
   end.
 
 Definition run_pipeline (s : source) (ops : list op) : res rdd := run_ops ops (run_source s).
+
+(* ------------------------------------------------------------------ tasks, attempts, retries *)
+
+(* context._run_task: attempt_number += 1; try func(tc, rdd.compute(partition, tc)); on an
+   exception raise it when attempt_number == max_retries, otherwise run the task again with the
+   SAME task context and the SAME partition (so the same split.index / tc.partition_id).
+   [plan] says which attempts fail (true = the stage function raises during this attempt);
+   [f] is what the lineage computes from (index, contents).  Result and the index every attempt saw. *)
+Fixpoint run_task (attempts_left : nat) (plan : list bool) (f : Z -> list val -> list val)
+         (ip : Z * list val) : res (list val) * list Z :=
+  match attempts_left with
+  | O => (Err "RuntimeError", [])
+  | S k =>
+      match plan with
+      | true :: plan' =>
+          match k with
+          | O => (Err "RuntimeError", [fst ip])
+          | S _ => let rl := run_task k plan' f ip in (fst rl, fst ip :: snd rl)
+          end
+      | _ => (Ok (f (fst ip) (snd ip)), [fst ip])
+      end
+  end.
+
+Definition max_retries : nat := 3.    (* Context(max_retries=3) *)
+
+(* Context._runJob_local: the tasks one after the other; the first task that gives up ends the job *)
+Fixpoint run_job (plans : Z -> list bool) (f : Z -> list val -> list val) (r : rdd) : res parts * list Z :=
+  match r with
+  | [] => (Ok [], [])
+  | ip :: r' =>
+      let t := run_task max_retries (plans (fst ip)) f ip in
+      match fst t with
+      | Err e => (Err e, snd t)
+      | Ok p =>
+          let j := run_job plans f r' in
+          (match fst j with Ok ps => Ok (p :: ps) | Err e => Err e end, snd t ++ snd j)
+      end
+  end.
+
+Fixpoint fails_before (plan : list bool) : nat :=
+  match plan with true :: plan' => S (fails_before plan') | _ => O end.
